@@ -132,7 +132,7 @@ func ZZ_C04_serial() {
 	private := vCase("private", 0, 1) == 1
 	k := zzKey(private)
 	pub := append([]byte(nil), k.pubKeyBytes()...)
-	k.String()
+	zzEncoded = zzSer(k)
 	want := append([]byte(nil), k.version...)
 	want = append(want, k.depth)
 	want = append(want, k.parentFP...)
